@@ -603,3 +603,365 @@ Proof.
   pose proof (HF' false (4 * fslen false d + 16) 0 wr_init Hwx Hok (seg_self _)) as E. cbn [Nat.add] in E.
   rewrite E; [reflexivity|lia|]. repeat split; auto.
 Qed.
+
+(* ------------------------------------------------------------------ 4. the chunks are a rendering of the normalised document *)
+(* the writer's normalisation (`key {` -> `key={`), also inside the values of a key-value list *)
+Fixpoint normx_value (v : value) : value :=
+  match v with
+  | VScalar k s => VScalar k s
+  | VObject fs tl => VObject (normx_fields fs) tl
+  | VArray items => VArray (normx_values items)
+  | VArrayKv items kvs => VArrayKv (normx_values items) (normx_kvs kvs)
+  | VHeader name v => VHeader name (normx_value v)
+  end
+with normx_field (f : field) : field :=
+  match f with
+  | Field k key op v => Field k key (Some (op_or_eq op)) (normx_value v)
+  | ParamV name u s => ParamV name u s
+  | ParamO name u fs => ParamO name u (normx_fields fs)
+  end
+with normx_fields (fs : fields) : fields :=
+  match fs with FNil => FNil | FCons f fs' => FCons (normx_field f) (normx_fields fs') end
+with normx_values (vs : values) : values :=
+  match vs with VNil => VNil | VCons v vs' => VCons (normx_value v) (normx_values vs') end
+with normx_kvs (kvs : fields) : fields :=
+  match kvs with
+  | FNil => FNil
+  | FCons f r => FCons (match f with Field k key op v => Field k key op (normx_value v) | x => x end) (normx_kvs r)
+  end.
+
+Definition fval (f : field) : option value := match f with Field _ _ _ v => Some v | _ => None end.
+
+Lemma chunks_toks_x c :
+  (forall v n g, wx_value v = true -> map snd (chx_value c n g v) = toks_value (normx_value v)) /\
+  (forall f, (forall n g, wx_field f = true -> map snd (chx_field c n g f) = toks_field (normx_field f)) /\
+             (forall v, fval f = Some v -> forall n g, wx_value v = true -> map snd (chx_value c n g v) = toks_value (normx_value v))) /\
+  (forall fs, (forall n g, wx_fields fs = true -> map snd (chx_fields c n g fs) = toks_fields (normx_fields fs)) /\
+              (forall n lost g, wx_kvs fs = true -> map snd (chx_kvs c n lost g fs) = toks_fields (normx_kvs fs))) /\
+  (forall vs n g, wx_items vs = true -> map snd (chx_items c n g vs) = toks_values (normx_values vs)).
+Proof.
+  apply doc_mutind.
+  - reflexivity.
+  - intros fs [Hfs _] tl _ n g Hwx. cbn [wx_value] in Hwx. andb_split. destruct tl; [|discriminate].
+    cbn [chx_value normx_value toks_value map snd toks_values app]. rewrite map_app, Hfs by assumption. reflexivity.
+  - intros items H n g Hwx. cbn [wx_value] in Hwx.
+    cbn [chx_value normx_value toks_value map snd]. rewrite map_app, H by assumption. reflexivity.
+  - intros items H kvs [_ HK] n g Hwx. cbn [wx_value] in Hwx. andb_split.
+    cbn [chx_value normx_value toks_value map snd]. rewrite !map_app, H, HK by assumption. reflexivity.
+  - intros name v H n g Hwx. cbn [wx_value] in Hwx. andb_split.
+    cbn [chx_value normx_value toks_value map snd]. rewrite H by assumption. reflexivity.
+  - intros k key op v H. split.
+    + intros n g Hwx. cbn [wx_field] in Hwx.
+      cbn [chx_field normx_field toks_field map snd optok app]. rewrite H by assumption. reflexivity.
+    + intros v' E. inversion E; subst. exact H.
+  - intros name u s. split; [intros n g Hwx; discriminate Hwx|intros v' E; discriminate E].
+  - intros name u fs [H _]. split; [|intros v' E; discriminate E].
+    intros n g Hwx. cbn [wx_field] in Hwx. andb_split.
+    cbn [chx_field normx_field toks_field map snd]. rewrite map_app, H by assumption. reflexivity.
+  - split; reflexivity.
+  - intros f [Hf Hv] fs [Hfs Hks]. split.
+    + intros n g Hwx. cbn [wx_fields] in Hwx. andb_split.
+      cbn [chx_fields normx_fields toks_fields]. rewrite map_app, Hf, Hfs by assumption. reflexivity.
+    + intros n lost g Hwx. destruct f as [k key op v| |]; try discriminate Hwx. cbn [wx_kvs] in Hwx. andb_split.
+      destruct op as [o|]; [|discriminate].
+      cbn [chx_kvs normx_kvs toks_fields toks_field map snd optok app op_or_eq].
+      rewrite map_app, (Hv v eq_refl), Hks by assumption. reflexivity.
+  - reflexivity.
+  - intros v Hv vs Hvs n g Hwx. cbn [wx_items] in Hwx. andb_split.
+    cbn [chx_items normx_values toks_values]. rewrite map_app, Hv, Hvs by assumption. reflexivity.
+Qed.
+
+Section GapsX.
+Variable c : cfg.
+Hypothesis Hc : cfg_ok c.
+
+Lemma gap_ok_kvgap lost : gap_ok (kvgap lost).
+Proof. destruct lost; [apply gap_ok_sp|constructor]. Qed.
+
+Lemma chunks_gaps_x :
+  (forall v n g, gap_ok g -> gaps_ok (chx_value c n g v)) /\
+  (forall f, (forall n g, gap_ok g -> gaps_ok (chx_field c n g f)) /\
+             (forall v, fval f = Some v -> forall n g, gap_ok g -> gaps_ok (chx_value c n g v))) /\
+  (forall fs, (forall n g, gap_ok g -> gaps_ok (chx_fields c n g fs)) /\
+              (forall n lost g, gap_ok g -> gaps_ok (chx_kvs c n lost g fs))) /\
+  (forall vs n g, gap_ok g -> gaps_ok (chx_items c n g vs)).
+Proof.
+  unfold gaps_ok. apply doc_mutind.
+  - intros k s n g Hg. constructor; [exact Hg|constructor].
+  - intros fs [Hfs _] tl _ n g Hg. cbn [chx_value]. constructor; [exact Hg|]. apply Forall_app. split.
+    + apply Hfs, (gap_ok_nli c Hc).
+    + constructor; [apply (gap_ok_close c Hc)|constructor].
+  - intros items H n g Hg. cbn [chx_value]. constructor; [exact Hg|]. apply Forall_app. split.
+    + apply H, (gap_ok_nli c Hc).
+    + constructor; [apply (gap_ok_close c Hc)|constructor].
+  - intros items H kvs [_ HK] n g Hg. cbn [chx_value]. constructor; [exact Hg|]. apply Forall_app. split; [|apply Forall_app; split].
+    + apply H, (gap_ok_nli c Hc).
+    + apply HK, (gap_ok_sepgap c Hc).
+    + constructor; [apply (gap_ok_nli c Hc)|constructor].
+  - intros name v H n g Hg. cbn [chx_value]. constructor; [exact Hg|]. apply H, gap_ok_sp.
+  - intros k key op v H. split; [|intros v' E; inversion E; subst; exact H].
+    intros n g Hg. cbn [chx_field]. constructor; [exact Hg|]. constructor; [apply gap_ok_opgap|].
+    apply H, gap_ok_opgap.
+  - intros name u s. split; [|intros v' E; discriminate E].
+    intros n g Hg. cbn [chx_field]. constructor; [exact Hg|]. constructor; [apply gap_ws; [reflexivity|constructor]|].
+    constructor; constructor.
+  - intros name u fs [H _]. split; [|intros v' E; discriminate E].
+    intros n g Hg. cbn [chx_field]. constructor; [exact Hg|]. apply Forall_app. split.
+    + apply H, (gap_ok_nli c Hc).
+    + constructor; [apply (gap_ok_nli c Hc)|constructor].
+  - split; constructor.
+  - intros f [Hf Hv] fs [Hfs Hks]. split.
+    + intros n g Hg. cbn [chx_fields]. apply Forall_app. split; [apply Hf, Hg|apply Hfs, (gap_ok_nli c Hc)].
+    + intros n lost g Hg. destruct f as [k key op v| |]; cbn [chx_kvs]; try constructor; [exact Hg|].
+      constructor; [apply gap_ok_kvgap|]. apply Forall_app. split.
+      * apply (Hv v eq_refl), gap_ok_kvgap.
+      * apply Hks, (gap_ok_sepgap c Hc).
+  - constructor.
+  - intros v Hv vs Hvs n g Hg. cbn [chx_items]. apply Forall_app. split; [apply Hv, Hg|apply Hvs, (gap_ok_sepgap c Hc)].
+Qed.
+End GapsX.
+
+Lemma bstart_kvop lost o : kv_op (Some o) = true -> bstart (kvgap lost, optk o).
+Proof.
+  intros H. destruct lost; [apply bstart_gap, bgap_sp|].
+  destruct o; try discriminate H; eexists; eexists; (split; [reflexivity|reflexivity]).
+Qed.
+
+Lemma chunks_adj_x c :
+  (forall v n g p, wx_value v = true -> (p = true -> bgap g) -> adjb p (chx_value c n g v)) /\
+  (forall f, (forall n g p, wx_field f = true -> (p = true -> bgap g) -> adjb p (chx_field c n g f)) /\
+             (forall v, fval f = Some v -> forall n g p, wx_value v = true -> (p = true -> bgap g) -> adjb p (chx_value c n g v))) /\
+  (forall fs, (forall n g p, wx_fields fs = true -> (p = true -> bgap g) -> adjb p (chx_fields c n g fs)) /\
+              (forall n lost g p, wx_kvs fs = true -> (p = true -> bgap g) -> adjb p (chx_kvs c n lost g fs))) /\
+  (forall vs n g p, wx_items vs = true -> (p = true -> bgap g) -> adjb p (chx_items c n g vs)).
+Proof.
+  apply doc_mutind.
+  - intros k s n g p _ Hg. split; [intros Hp; apply bstart_gap, Hg, Hp|exact I].
+  - intros fs [Hfs _] tl _ n g p Hwx Hg. cbn [wx_value] in Hwx. andb_split. cbn [chx_value].
+    split; [intros Hp; apply bstart_gap, Hg, Hp|]. apply adjb_app.
+    + apply Hfs; [assumption|discriminate].
+    + split; [intros _; apply bstart_gap, bgap_close|exact I].
+  - intros items H n g p Hwx Hg. cbn [wx_value] in Hwx. cbn [chx_value].
+    split; [intros Hp; apply bstart_gap, Hg, Hp|]. apply adjb_app.
+    + apply H; [assumption|discriminate].
+    + split; [intros _; apply bstart_gap, bgap_close|exact I].
+  - intros items H kvs [_ HK] n g p Hwx Hg. cbn [wx_value] in Hwx. andb_split. cbn [chx_value].
+    split; [intros Hp; apply bstart_gap, Hg, Hp|]. apply adjb_app; [|apply adjb_app].
+    + apply H; [assumption|discriminate].
+    + apply HK; [assumption|]. intros _. apply bgap_sepgap.
+    + split; [intros _; apply bstart_gap, bgap_nli|exact I].
+  - intros name v H n g p Hwx Hg. cbn [wx_value] in Hwx. andb_split. cbn [chx_value].
+    split; [intros Hp; apply bstart_gap, Hg, Hp|]. apply H; [assumption|]. intros _. apply bgap_sp.
+  - intros k key op v H. split; [|intros v' E; inversion E; subst; exact H].
+    intros n g p Hwx Hg. cbn [wx_field] in Hwx. cbn [chx_field].
+    split; [intros Hp; apply bstart_gap, Hg, Hp|]. split; [intros _; apply bstart_op|].
+    apply H; [assumption|discriminate].
+  - intros name u s. split; [intros n g p Hwx; discriminate Hwx|intros v' E; discriminate E].
+  - intros name u fs [H _]. split; [|intros v' E; discriminate E].
+    intros n g p Hwx Hg. cbn [wx_field] in Hwx. andb_split. cbn [chx_field].
+    split; [intros Hp; apply bstart_gap, Hg, Hp|]. apply adjb_app.
+    + apply H; [assumption|discriminate].
+    + split; [intros _; apply bstart_gap, bgap_nli|exact I].
+  - split; intros; exact I.
+  - intros f [Hf Hv] fs [Hfs Hks]. split.
+    + intros n g p Hwx Hg. cbn [wx_fields] in Hwx. andb_split. cbn [chx_fields]. apply adjb_app.
+      * apply Hf; assumption.
+      * apply Hfs; [assumption|]. intros _. apply bgap_nli.
+    + intros n lost g p Hwx Hg. destruct f as [k key op v| |]; try discriminate Hwx. cbn [wx_kvs] in Hwx. andb_split.
+      destruct op as [o|]; [|discriminate].
+      cbn [chx_kvs adjb op_or_eq]. split; [intros Hp; apply bstart_gap, Hg, Hp|]. split.
+      * intros _. apply bstart_kvop. assumption.
+      * apply adjb_app.
+        -- apply (Hv v eq_refl); [assumption|discriminate].
+        -- apply Hks; [assumption|]. intros _. apply bgap_sepgap.
+  - intros; exact I.
+  - intros v Hv vs Hvs n g p Hwx Hg. cbn [wx_items] in Hwx. andb_split. cbn [chx_items]. apply adjb_app.
+    + apply Hv; assumption.
+    + apply Hvs; [assumption|]. intros _. apply bgap_sepgap.
+Qed.
+
+Lemma chunks_nobom_x c d : nobom d = true -> has_bom (cbytes (chunks_x c d)) = false.
+Proof.
+  intros Hn. unfold chunks_x. destruct d as [|f fs]; [reflexivity|].
+  cbn [chx_fields]. rewrite cbytes_app. destruct f as [k key op v|name u s|name u fs'].
+  - cbn [chx_field]. rewrite !cbytes_cons. cbn [app stok fst optk]. destruct k; cbn [scalar_bytes].
+    + cbn [nobom] in Hn. rewrite <- !app_assoc. apply has_bom_key; [destruct (has_bom key); [discriminate|reflexivity]|].
+      rewrite app_assoc. apply bgap_app. apply (bstart_op (op_or_eq op)).
+    + reflexivity.
+  - reflexivity.
+  - reflexivity.
+Qed.
+
+(* the normalisation is invisible on the tape *)
+Lemma flat_normx :
+  (forall v off, flat_value off (normx_value v) = flat_value off v) /\
+  (forall f, (forall off, flat_field false off (normx_field f) = flat_field false off f) /\
+             (forall v, fval f = Some v -> forall off, flat_value off (normx_value v) = flat_value off v)) /\
+  (forall fs, (forall off, flat_fields false off (normx_fields fs) = flat_fields false off fs) /\
+              (forall off, flat_fields true off (normx_kvs fs) = flat_fields true off fs)) /\
+  (forall vs off, flat_values off (normx_values vs) = flat_values off vs).
+Proof.
+  apply doc_mutind.
+  - reflexivity.
+  - intros fs [Hfs _] tl _ off. cbn [normx_value flat_value]. rewrite Hfs. reflexivity.
+  - intros items H off. cbn [normx_value flat_value]. rewrite H. reflexivity.
+  - intros items H kvs [_ HK] off. cbn [normx_value flat_value]. rewrite H, HK. reflexivity.
+  - intros name v H off. cbn [normx_value flat_value]. rewrite H. reflexivity.
+  - intros k key op v H. split; [|intros v' E; inversion E; subst; exact H].
+    intros off. cbn [normx_field flat_field].
+    replace (op_toks false (Some (op_or_eq op))) with (op_toks false op) by (destruct op as [[]|]; reflexivity).
+    rewrite H. reflexivity.
+  - intros name u s. split; [reflexivity|intros v' E; discriminate E].
+  - intros name u fs [H _]. split; [|intros v' E; discriminate E].
+    intros off. cbn [normx_field flat_field]. rewrite H. reflexivity.
+  - split; reflexivity.
+  - intros f [Hf Hv] fs [Hfs Hks]. split.
+    + intros off. cbn [normx_fields flat_fields]. rewrite Hf, Hfs. reflexivity.
+    + intros off. cbn [normx_kvs flat_fields]. destruct f as [k key op v| |]; cbn [flat_field]; rewrite ?(Hv v eq_refl), Hks; reflexivity.
+  - reflexivity.
+  - intros v Hv vs Hvs off. cbn [normx_values flat_values]. rewrite Hv, Hvs. reflexivity.
+Qed.
+
+Theorem flatten_normx d : flatten (normx_fields d) = flatten d.
+Proof. apply (proj1 (proj1 (proj2 (proj2 flat_normx)) d)). Qed.
+
+(* the flag is off again at the end of every document *)
+Lemma da_false :
+  (forall v : value, True) /\ (forall f, da_field false f = false) /\
+  (forall fs, da_fields false fs = false) /\ (forall vs : values, True).
+Proof.
+  apply doc_mutind; try (intros; exact I); try reflexivity.
+  - intros name u fs H. exact H.
+  - intros f Hf fs Hfs. cbn [da_fields]. rewrite Hf. exact Hfs.
+Qed.
+Lemma w_end_x_eq d : w_end_x d = w_end d.
+Proof. unfold w_end_x, w_end. rewrite (proj1 (proj2 (proj2 da_false))). reflexivity. Qed.
+
+(* ------------------------------------------------------------------ 5. the theorems *)
+Lemma render_layout_x c d : wx_fields d = true -> render (normx_fields d) (layout_x c d) = cbytes (chunks_x c d).
+Proof.
+  intros Hwx. unfold render, layout_x. cbn [bom gap app].
+  rewrite <- (proj1 (proj1 (proj2 (proj2 (chunks_toks_x c))) d) 0 [] Hwx). apply render_layout_chunks.
+Qed.
+
+Theorem write_is_layout_x c d : wx_fields d = true -> K14 d = false ->
+  write_tape (tape_fuel (flatten d)) c (flatten d) = WOk (w_end d) (render (normx_fields d) (layout_x c d)).
+Proof.
+  intros Hwx HK. unfold K14 in HK. apply Bool.orb_false_elim in HK as [_ HK]. apply Bool.negb_false_iff in HK.
+  rewrite render_layout_x by exact Hwx. rewrite <- w_end_x_eq. apply write_tape_chunks_x; assumption.
+Qed.
+
+Theorem layout_x_wf c d : cfg_ok c -> wx_fields d = true -> nobom d = true -> wf_layout (normx_fields d) (layout_x c d).
+Proof.
+  intros Hc Hwx Hnb. split; [|split].
+  - intros i. unfold layout_x. cbn [gap].
+    destruct (Nat.lt_ge_cases i (length (map fst (chunks_x c d)))) as [Hi|Hi]; [|rewrite nth_overflow by exact Hi; constructor].
+    apply Forall_nth; [|exact Hi]. apply Forall_map.
+    apply (proj1 (proj1 (proj2 (proj2 (chunks_gaps_x c Hc))) d) 0 []). constructor.
+  - unfold layout_x. cbn [gap].
+    rewrite <- (proj1 (proj1 (proj2 (proj2 (chunks_toks_x c))) d) 0 [] Hwx).
+    apply (adjb_sep _ false 0).
+    + apply (proj1 (proj1 (proj2 (proj2 (chunks_adj_x c))) d) 0 [] false Hwx). discriminate.
+    + intros i Hi. cbn [Nat.add]. change (@nil N) with (fst (@nil N, (@nil N, false))). apply map_nth.
+    + apply nth_overflow. rewrite map_length. apply Nat.le_refl.
+  - intros _. rewrite render_layout_x by exact Hwx. apply chunks_nobom_x; assumption.
+Qed.
+
+(* the old class is inside the new one, and K is empty on it *)
+Lemma okd_obj e dd fs tl : okd_value e dd (VObject fs tl) = okd_fields e dd fs. Proof. reflexivity. Qed.
+Lemma okd_arr e dd items : okd_value e dd (VArray items) = okd_items e dd items. Proof. reflexivity. Qed.
+Lemma okd_akv e dd items kvs : okd_value e dd (VArrayKv items kvs) = okd_items e dd items && okd_kvs e false kvs. Proof. reflexivity. Qed.
+Lemma okd_hdr e dd name v : okd_value e dd (VHeader name v) = okd_value e dd v. Proof. reflexivity. Qed.
+Lemma okd_fld e dd k key op v : okd_field e dd (Field k key op v) = negb (dd && op_written e op) && okd_value e dd v. Proof. reflexivity. Qed.
+Lemma okd_po e dd name u fs : okd_field e dd (ParamO name u fs) = okd_fields e dd fs. Proof. reflexivity. Qed.
+Lemma okd_fcons e dd f r : okd_fields e dd (FCons f r) = okd_field e dd f && okd_fields e (da_field dd f) r. Proof. reflexivity. Qed.
+Lemma okd_icons e dd v r : okd_items e dd (VCons v r) = okd_value e dd v && okd_items e (da_value dd v) r. Proof. reflexivity. Qed.
+Lemma okd_kcons e lost k key op v r :
+  okd_kvs e lost (FCons (Field k key op v) r) = okd_value e (negb lost) v && okd_kvs e (lost || negb (is_scalar v)) r.
+Proof. reflexivity. Qed.
+
+Lemma rt_in_wx :
+  (forall v, wf_value v = true -> rt_value v = true -> wx_value v = true /\ okd_value false false v = true) /\
+  (forall f, wf_field f = true -> rt_field f = true -> wx_field f = true /\ okd_field false false f = true) /\
+  (forall fs, (wf_fields fs = true -> rt_fields fs = true -> wx_fields fs = true /\ okd_fields false false fs = true) /\
+              (wf_kvs fs = true -> wx_kvs fs = true /\ forall lost, okd_kvs false lost fs = true)) /\
+  (forall vs, wf_items vs = true -> rt_values vs = true -> wx_items vs = true /\ okd_items false false vs = true).
+Proof.
+  apply doc_mutind.
+  - auto.
+  - intros fs [Hfs _] tl _ Hwf Hrt. rewrite okd_obj. cbn [wf_value rt_value wx_value] in *. andb_split.
+    destruct (Hfs ltac:(assumption) ltac:(assumption)) as [-> ->]. destruct tl; [auto|discriminate].
+  - intros items H Hwf Hrt. rewrite okd_arr. cbn [wf_value rt_value wx_value] in *. andb_split. apply H; assumption.
+  - intros items H kvs [_ HK] Hwf Hrt. rewrite okd_akv. cbn [wf_value rt_value wx_value] in *. andb_split.
+    destruct (H ltac:(assumption) ltac:(assumption)) as [-> ->]. destruct (HK ltac:(assumption)) as [-> Hk].
+    rewrite (Hk false). split; [|reflexivity].
+    repeat match goal with H : _ = true |- _ => rewrite H end. reflexivity.
+  - intros name v H Hwf Hrt. rewrite okd_hdr. cbn [wf_value rt_value wx_value] in *. andb_split.
+    destruct (H ltac:(assumption) ltac:(assumption)) as [-> ->]. split; [|reflexivity].
+    repeat match goal with H : _ = true |- _ => rewrite H end. reflexivity.
+  - intros k key op v H Hwf Hrt. rewrite okd_fld. cbn [wf_field rt_field wx_field] in *. andb_split.
+    destruct (H ltac:(assumption) ltac:(assumption)) as [-> ->]. auto.
+  - intros name u s _ Hrt. discriminate Hrt.
+  - intros name u fs [H _] Hwf Hrt. rewrite okd_po. cbn [wf_field rt_field wx_field] in *. andb_split.
+    destruct (H ltac:(assumption) ltac:(assumption)) as [-> ->]. split; [|reflexivity].
+    destruct fs; [discriminate|reflexivity].
+  - split; [auto|]. intros _. split; [reflexivity|]. intros lost. reflexivity.
+  - intros f Hf fs [Hfs Hks]. split.
+    + intros Hwf Hrt. rewrite okd_fcons. cbn [wf_fields rt_fields wx_fields] in *. andb_split.
+      destruct (Hf ltac:(assumption) ltac:(assumption)) as [-> ->].
+      rewrite (proj1 (proj2 da_false)). apply Hfs; assumption.
+    + intros Hwf. destruct f as [k key op v| |]; try discriminate Hwf. cbn [wf_kvs wx_kvs] in *. andb_split.
+      destruct v as [k2 s| | | |]; try discriminate. destruct (Hks ltac:(assumption)) as [-> Hk].
+      split; [|intros lost; rewrite okd_kcons; cbn [is_scalar negb]; rewrite Bool.orb_false_r; apply Hk].
+      repeat match goal with H : _ = true |- _ => rewrite H end. reflexivity.
+  - auto.
+  - intros v Hv vs Hvs Hwf Hrt. rewrite okd_icons. cbn [wf_items rt_values wx_items] in *. andb_split.
+    destruct (Hv ltac:(assumption) ltac:(assumption)) as [-> ->].
+    replace (da_value false v) with false by reflexivity.
+    destruct (Hvs ltac:(assumption) ltac:(assumption)) as [-> ->].
+    repeat match goal with H : _ = true |- _ => rewrite H end. split; reflexivity.
+Qed.
+
+Lemma rt_no_pv :
+  (forall v, rt_value v = true -> wf_value v = true -> pv_value v = false) /\
+  (forall f, rt_field f = true -> wf_field f = true -> pv_field f = false) /\
+  (forall fs, (rt_fields fs = true -> wf_fields fs = true -> pv_fields fs = false) /\ (wf_kvs fs = true -> pv_fields fs = false)) /\
+  (forall vs, rt_values vs = true -> wf_items vs = true -> pv_values vs = false).
+Proof.
+  apply doc_mutind.
+  - auto.
+  - intros fs [Hfs _] tl _ Hrt Hwf. cbn [rt_value wf_value pv_value] in *. andb_split. apply Hfs; assumption.
+  - intros items H Hrt Hwf. cbn [rt_value wf_value pv_value] in *. andb_split. apply H; assumption.
+  - intros items H kvs [_ HK] Hrt Hwf. cbn [rt_value wf_value pv_value] in *. andb_split.
+    rewrite H, HK by assumption. reflexivity.
+  - intros name v H Hrt Hwf. cbn [rt_value wf_value pv_value] in *. andb_split. apply H; assumption.
+  - intros k key op v H Hrt Hwf. cbn [rt_field wf_field pv_field] in *. andb_split. apply H; assumption.
+  - intros name u s Hrt. discriminate Hrt.
+  - intros name u fs [H _] Hrt Hwf. cbn [rt_field wf_field pv_field] in *. andb_split. apply H; assumption.
+  - split; auto.
+  - intros f Hf fs [Hfs Hks]. split.
+    + intros Hrt Hwf. cbn [rt_fields wf_fields pv_fields] in *. andb_split. rewrite Hf, Hfs by assumption. reflexivity.
+    + intros Hwf. destruct f as [k key op v| |]; try discriminate Hwf. cbn [wf_kvs pv_fields pv_field] in *. andb_split.
+      destruct v; try discriminate. rewrite Hks by assumption. reflexivity.
+  - auto.
+  - intros v Hv vs Hvs Hrt Hwf. cbn [rt_values wf_items pv_values] in *. andb_split. rewrite Hv, Hvs by assumption. reflexivity.
+Qed.
+
+Theorem rt_outside_K d : rt d -> wx_fields d = true /\ K14 d = false.
+Proof.
+  intros [Hwf [Hrt _]]. destruct (proj1 (proj1 (proj2 (proj2 rt_in_wx)) d) Hwf Hrt) as [Hwx Hok].
+  split; [exact Hwx|]. unfold K14. rewrite Hok, (proj1 (proj1 (proj2 (proj2 rt_no_pv)) d) Hrt Hwf). reflexivity.
+Qed.
+
+(* C14 for lists with container values: outside K the output is a well-formed rendering of the same token
+   stream; it parses back to the same tape under ANY parser that reads every well-formed rendering of the
+   (normalised) document as [t] -- for the parser model this is C01_parse_render where wf_doc holds; for
+   container values inside a list it is the hypothesis (not proved: PARTIAL). *)
+Theorem write_reparse_x c d (P : bytes -> outcome (ttape * bool)) t :
+  cfg_ok c -> wx_fields d = true -> nobom d = true -> K14 d = false ->
+  (forall l, wf_layout (normx_fields d) l -> P (render (normx_fields d) l) = Ok (t, bom l)) ->
+  exists out, write_tape (tape_fuel (flatten d)) c (flatten d) = WOk (w_end d) out /\ P out = Ok (t, false).
+Proof.
+  intros Hc Hwx Hnb HK HP. eexists. split; [apply (write_is_layout_x c d Hwx HK)|].
+  apply (HP (layout_x c d)). apply layout_x_wf; assumption.
+Qed.
